@@ -3,464 +3,20 @@
 
   `contents_formatted_reproduces` / `state_formatted_reproduces`: for every source screen `S` that
   satisfies `Inv`, `Inv⁺` and `emitInv` (every reachable screen; evaluated on every visited state by the
-  checks), that is not scrolled back, and whose cursor is not at the pending-wrap position over an empty
-  last cell (see `props.json` for the remaining cursor fix-up branches), and for every receiving parser that
+  checks) and is not scrolled back — wherever its cursor is, all four branches of
+  `write_cursor_position_formatted` included — and for every receiving parser that
   is ready, satisfies `Inv`, has the same size, the full screen as scroll region, origin mode off and is
   not scrolled back — a new parser, or one that has been fed other full redraws — processing the BYTES of
   `S.contents_formatted()` (resp. `S.state_formatted()`) through the vte and perform models leaves the
   receiver with the observable state of `S`: same cells, wrap flags, cursor, cursor visibility, pen
   (and input modes).
 -/
-import Vt.Props.GridDraw
-import Vt.Props.C10b
-import Vt.Props.C13
-import Vt.Props.C02
+import Vt.Props.C01cursor
 namespace Vt.C01
 open Vt Vt.Recv Vt.C19 Vt.C09 Vt.RowDraw Vt.GridDraw Vt.Tok Vt.C03
 set_option linter.unusedSimpArgs false
 
 variable {W : Nat → Option Nat} {cb : CbPolicy}
-
-/-- `ESC [ m` -/
-theorem step_clearAttrs : Step W cb Term.clearAttrs (fun r => pure { r with pen := Attrs.default }) := by
-  intro p hr r' hf
-  simp only [pure_eq_ok, Except.ok.injEq] at hf
-  subst hf
-  obtain ⟨p', e, w, r⟩ := process_clearAttrs W cb p hr
-  refine ⟨p', e, ?_, r⟩
-  rw [w]
-  simp only [WS.modAttrs, withRS, rsOf, setCur_self]
-
-/-- the grid after `ESC [ H ESC [ J` with the default pen: every line blank, cursor home -/
-def clearedAll (g : Grid) : Grid :=
-  { g with rows := g.rows.map (fun r => r.clear Attrs.default), pos := ⟨0, 0⟩ }
-
-theorem view_rangeCell_in (lo hi : Nat) (a : Attrs) (j : Nat) (c : Cell) (h : lo ≤ j ∧ j < hi) :
-    C07.rangeCell lo hi a j c = c.clear a := by
-  simp [C07.rangeCell, h]
-
-theorem set0_take1 {α} (l : List α) (h : 0 < l.length) (f : α → α) (X : α) :
-    (l.take 1 ++ (l.drop 1).map f).set 0 X = X :: (l.drop 1).map f := by
-  cases l with
-  | nil => simp at h
-  | cons x xs => simp
-
-/-- ED 0 from home blanks everything: in terms of views and wrap flags the result is `clearedAll` -/
-theorem clear_from_home {g : Grid} (hc : Canvas g) (hinv : ∀ r ∈ g.rows, rowOk W r = true) :
-    ∃ g', (g.setPos ⟨0, 0⟩ >>= fun g1 => g1.eraseAllForward Attrs.default) = .ok g' ∧
-      g'.size = g.size ∧ g'.pos = ⟨0, 0⟩ ∧ g'.scrollTop = g.scrollTop ∧ g'.scrollBottom = g.scrollBottom ∧
-      g'.originMode = g.originMode ∧ g'.rows.length = g.rows.length ∧
-      (∀ r ∈ g'.rows, BlankRow g.size.cols r) ∧ g'.scrollback = g.scrollback ∧
-      g'.scrollbackOffset = g.scrollbackOffset := by
-  rw [setPos_eq hc ⟨0, 0⟩ hc.rows_pos hc.cols_pos]
-  simp only [ok_bind]
-  have hlen : 0 < g.rows.length := by rw [hc.alloc]; exact hc.rows_pos
-  have hr0 : (withPos g ⟨0, 0⟩).rows[(withPos g ⟨0, 0⟩).pos.row]? = some g.rows[0] := by
-    simp [withPos, List.getElem?_eq_getElem hlen]
-  have hok0 := hinv _ (List.getElem_mem hlen)
-  have hcl : C07.CurLine W (withPos g ⟨0, 0⟩) g.rows[0] :=
-    ⟨hr0, ((rowOk_iff W _).mp hok0).2, hc.width _ (List.getElem_mem hlen), Nat.zero_le _, hc.cols_pos, hc.cols_u16⟩
-  rw [C07.ed0_eq hcl Attrs.default]
-  have hrows : (C07.erasedGrid (C07.belowCleared (withPos g ⟨0, 0⟩) Attrs.default) g.rows[0]
-        (withPos g ⟨0, 0⟩).pos.col (withPos g ⟨0, 0⟩).size.cols Attrs.default).rows =
-      C07.erasedRow g.rows[0].cells g.rows[0].wrapped 0 g.size.cols Attrs.default ::
-        (g.rows.drop 1).map (fun r => r.clear Attrs.default) := by
-    simp only [C07.erasedGrid, C07.belowCleared, withPos, Nat.zero_add]
-    exact set0_take1 g.rows hlen _ _
-  refine ⟨_, rfl, rfl, rfl, rfl, rfl, rfl, ?_, ?_, rfl, rfl⟩
-  · rw [hrows]; simp; omega
-  · intro r hr
-    rw [hrows] at hr
-    rcases List.mem_cons.mp hr with rfl | hr
-    · -- line 0: every cell in the erased range [0, cols)
-      have hw0 := hc.width _ (List.getElem_mem hlen)
-      refine ⟨?_, ?_, ?_⟩
-      · simp only [C07.erasedRow, C07.flagCleared, hw0, beq_self_eq_true, Bool.true_or, Bool.and_true,
-          decide_eq_true_eq]
-        have := hc.cols_pos
-        simp [this]
-        intro h; omega
-      · simp only [C07.erasedRow, C07.eraseRange]
-        rw [← hw0]
-        apply List.ext_getElem?
-        intro k
-        simp only [List.getElem?_map, List.getElem?_mapIdx, List.getElem?_replicate]
-        by_cases hk : k < g.rows[0].cells.length
-        · simp only [List.getElem?_eq_getElem hk, Option.map_some, hk, ↓reduceIte, Option.some.injEq]
-          rw [view_rangeCell_in 0 _ _ k _ ⟨Nat.zero_le _, hk⟩, view_clear]; rfl
-        · simp [List.getElem?_eq_none (Nat.le_of_not_lt hk), hk]
-      · intro c hc'
-        simp only [C07.erasedRow, C07.eraseRange, List.mem_mapIdx] at hc'
-        obtain ⟨k, hk, rfl⟩ := hc'
-        have h22 := (cellOk_fields W (((rowOk_iff W _).mp hok0).2.cells_ok _ (List.getElem_mem hk))).1
-        unfold C07.rangeCell
-        split
-        · exact h22
-        · split
-          · exact h22
-          · split
-            · exact h22
-            · exact h22
-    · obtain ⟨r0, hr0', rfl⟩ := List.mem_map.mp hr
-      have hr0m : r0 ∈ g.rows := List.mem_of_mem_drop hr0'
-      refine ⟨rfl, ?_, ?_⟩
-      · simp only [Row.clear, List.map_map]
-        rw [← hc.width r0 hr0m]
-        apply List.ext_getElem?
-        intro k
-        simp only [List.getElem?_map, List.getElem?_replicate]
-        by_cases hk : k < r0.cells.length
-        · simp [List.getElem?_eq_getElem hk, hk, view_clear, blankV]
-        · simp [List.getElem?_eq_none (Nat.le_of_not_lt hk), hk]
-      · intro c hc'
-        simp only [Row.clear, List.mem_map] at hc'
-        obtain ⟨c0, hc0, rfl⟩ := hc'
-        have := ((rowOk_iff W r0).mp (hinv r0 hr0m)).2.cells_ok c0 hc0
-        exact (cellOk_fields W this).1
-
-/-- what is assumed of the receiving parser: ready for a new sequence, its active grid a canvas of
-well-formed rows (a new parser; or any parser that has only been fed full redraws) -/
-structure RecvOk (W : Nat → Option Nat) (q : Parser) : Prop where
-  ready : Ready q
-  canvas : Canvas (rsOf q.ws).g
-  rows_ok : ∀ r ∈ (rsOf q.ws).g.rows, rowOk W r = true
-
-/-- `ESC [ m  ESC [ H  ESC [ J`: pen reset, every line blank, cursor home — the state the loop starts from -/
-theorem prefix_drawn {q : Parser} (hq : RecvOk W q) (srows : List Row) (hn : srows.length = (rsOf q.ws).g.size.rows) :
-    ∃ R1, Emitted W cb q (Term.clearAttrs ++ Term.clearScreen) R1 ∧ R1.pen = Attrs.default ∧
-      RowsInv srows (rsOf q.ws).g.size.cols 0 false ⟨0, 0⟩ R1 ∧ R1.g.scrollbackOffset = (rsOf q.ws).g.scrollbackOffset ∧
-      R1.g.scrollback = (rsOf q.ws).g.scrollback := by
-  obtain ⟨g', e, hsz, hpos, htop, hbot, horg, hlen, hblank, hsb, hoff⟩ := clear_from_home hq.canvas hq.rows_ok
-  have h0 := emitted_nil W cb q hq.ready
-  have h1 := emitted_step W cb hq.ready h0 (step_clearAttrs (W := W) (cb := cb))
-    (r' := { rsOf q.ws with pen := Attrs.default }) rfl
-  have h2 := emitted_step W cb hq.ready h1 (step_clearScreen W cb)
-    (r' := { g := g', pen := Attrs.default, saved := (rsOf q.ws).saved }) (by
-      simp only [e, ok_bind]; rfl)
-  have hc := hq.canvas
-  refine ⟨_, by simpa using h2, rfl, ⟨?_, by rw [hsz], by rw [hsz]; exact hn.symm, hpos, ?_, fun h => by simp at h⟩, hoff, hsb⟩
-  · refine ⟨by rw [hsz]; exact hc.rows_pos, by rw [hsz]; exact hc.cols_pos, by rw [hsz]; exact hc.rows_u16,
-      by rw [hsz]; exact hc.cols_u16, by rw [htop]; exact hc.top, by rw [hbot, hsz]; exact hc.bottom,
-      by rw [horg]; exact hc.origin, by rw [hlen, hsz]; exact hc.alloc, ?_⟩
-    intro r hr
-    have := (hblank r hr).2.1
-    have hl := congrArg List.length this
-    simp only [List.length_map, List.length_replicate] at hl
-    rw [hl, hsz]
-  · intro k hk
-    have hkl : k < g'.rows.length := by rw [hlen, hc.alloc, ← hn]; exact hk
-    exact ⟨g'.rows[k], List.getElem?_eq_getElem hkl, fun h => by omega, fun _ => hblank _ (List.getElem_mem hkl)⟩
-
-theorem rowsInv_withPos {srows : List Row} {cols i : Nat} {pp : Pos} {R : RS}
-    (h : RowsInv srows cols i false pp R) (to : Pos) :
-    RowsInv srows cols i false to { R with g := withPos R.g to } :=
-  ⟨canvas_withPos h.canvas to, h.hcols, h.nrows, rfl, h.row, fun hh => by simp at hh⟩
-
-/-- line `k` replaced, cursor moved -/
-def replaced (R : RS) (k : Nat) (Rk' : Row) (to : Pos) : RS :=
-  { R with g := { R.g with rows := R.g.rows.set k Rk', pos := to } }
-
-/-- replacing a drawn line by one that looks the same, and moving the cursor -/
-theorem rowsInv_replace {srows : List Row} {cols : Nat} {pp : Pos} {R : RS}
-    (h : RowsInv srows cols srows.length false pp R) (k : Nat) (Rk Rk' : Row) (hk : R.g.rows[k]? = some Rk)
-    (hv : Rk'.cells.map view = Rk.cells.map view) (hw : Rk'.wrapped = Rk.wrapped)
-    (h22 : ∀ c ∈ Rk'.cells, c.contents.length = 22) (to : Pos) :
-    RowsInv srows cols srows.length false to (replaced R k Rk' to) := by
-  unfold replaced
-  have hkl := getElem?_lt hk
-  have hc := h.canvas
-  refine ⟨⟨hc.rows_pos, hc.cols_pos, hc.rows_u16, hc.cols_u16, hc.top, hc.bottom, hc.origin,
-    by simp [hc.alloc], ?_⟩, h.hcols, h.nrows, rfl, ?_, fun hh => by simp at hh⟩
-  · intro r hr
-    simp only at hr ⊢
-    rcases List.mem_or_eq_of_mem_set hr with hr | rfl
-    · exact hc.width r hr
-    · have := congrArg List.length hv
-      simp only [List.length_map] at this
-      rw [this]; exact hc.width Rk (List.mem_of_getElem? hk)
-  · intro j hj
-    simp only [List.getElem?_set]
-    by_cases hjk : k = j
-    · subst hjk
-      obtain ⟨Rj, hRj, hd, hb⟩ := h.row k hj
-      rw [hk] at hRj
-      have : Rk = Rj := Option.some.inj hRj
-      subst this
-      simp only [hkl, ↓reduceIte]
-      refine ⟨Rk', rfl, fun hlt => ?_, fun hge => by omega⟩
-      obtain ⟨d1, _, d3⟩ := hd hlt
-      exact ⟨hv.trans d1, h22, hw.trans d3⟩
-    · rw [if_neg hjk]
-      exact h.row j hj
-
-/-- the receiver's cell looks like the source's: it is plain / wide exactly as the source cell is -/
-theorem flags_of_view {a b : Cell} (h : view a = view b) : a.wide = b.wide ∧ a.cont = b.cont := by
-  simp only [view, View.mk.injEq] at h
-  exact ⟨h.2.1, h.2.2.1⟩
-
-theorem views_get {l1 l2 : List Cell} (h : l1.map view = l2.map view) (k : Nat) (hk : k < l2.length) :
-    ∃ hk1 : k < l1.length, view l1[k] = view l2[k] := by
-  have hl : l1.length = l2.length := by simpa using congrArg List.length h
-  refine ⟨by omega, ?_⟩
-  have := congrArg (fun l => l[k]?) h
-  simp only [List.getElem?_map, List.getElem?_eq_getElem hk, List.getElem?_eq_getElem (show k < l1.length by omega),
-    Option.map_some, Option.some.injEq] at this
-  exact this
-
-/-- **the grid part of a full redraw** when the source cursor is not at the pending-wrap position -/
-theorem grid_formatted_reproduces (hW : WOk W) {q : Parser} (hq : RecvOk W q) (Sg : Grid)
-    (hoff : Sg.scrollbackOffset = 0) (hsz : Sg.size = (rsOf q.ws).g.size)
-    (hS : SrcRows W Sg.size.cols Sg.rows) (hn : Sg.rows.length = Sg.size.rows)
-    (hrow : Sg.pos.row < Sg.size.rows) (hcol : Sg.pos.col < Sg.size.cols) :
-    ∃ bytes pa, Sg.writeContentsFormatted = .ok (bytes, pa) ∧
-      ∃ Rf, Emitted W cb q bytes Rf ∧ Rf.pen = pa ∧
-        RowsInv Sg.rows Sg.size.cols Sg.rows.length false Sg.pos Rf ∧
-        Rf.g.scrollbackOffset = (rsOf q.ws).g.scrollbackOffset := by
-  obtain ⟨R1, hem1, hpen1, hinv1, hoff1, _⟩ := prefix_drawn (cb := cb) hq Sg.rows (by rw [hn, hsz])
-  rw [← hsz] at hinv1
-  obtain ⟨out', pp', pa', R', eloop, hem', hpen', hinv', hoff', hwf'⟩ := rows_loop hW q hq.ready hS Sg.rows 0 false ⟨0, 0⟩
-    (Term.clearAttrs ++ Term.clearScreen) R1 rfl (Nat.zero_le _) (fun h => absurd h (Nat.lt_irrefl 0)) (fun _ => rfl)
-    hinv1 hem1
-  rw [hpen1] at eloop
-  -- the cursor
-  have hcond : (some pp' != some Sg.pos && decide (Sg.pos.col ≥ Sg.size.cols)) = false := by
-    have : ¬ Sg.pos.col ≥ Sg.size.cols := by omega
-    simp [this]
-  have hcur : Sg.writeCursorPositionFormatted (some pp') (some pa') = .ok (Term.moveFromTo pp' Sg.pos) := by
-    simp only [Grid.writeCursorPositionFormatted, hcond, Bool.false_eq_true, ↓reduceIte, Grid.moveOpt, pure_eq_ok]
-  have hu := hinv'.canvas.cols_u16
-  have hru := hinv'.canvas.rows_u16
-  have hgo := goto_eq hinv'.canvas pp' Sg.pos hinv'.pos (by rw [hinv'.nrows, hn]; exact hrow)
-    (by rw [hinv'.hcols]; exact hcol)
-  have hem2 := emitted_step W cb hq.ready hem' (step_moveFromTo W cb pp' Sg.pos
-    (by rw [hinv'.nrows, hn] at hru; omega) (by rw [hinv'.hcols] at hu; omega)) hgo
-  refine ⟨out' ++ Term.moveFromTo pp' Sg.pos, pa', ?_, { R' with g := withPos R'.g Sg.pos }, hem2, hpen',
-    rowsInv_withPos hinv' Sg.pos, hoff'.trans hoff1⟩
-  simp only [Grid.writeContentsFormatted, C19.visibleRows_offset0 Sg hoff, ok_bind, eloop, hcur, pure_eq_ok]
-
-theorem map_view_set_same {l : List Cell} {k : Nat} (hk : k < l.length) {c' : Cell} (h : view c' = view l[k]) :
-    (l.set k c').map view = l.map view := by
-  rw [List.map_set]
-  apply List.ext_getElem?
-  intro j
-  by_cases hj : k = j
-  · subst hj; simp [hk, h]
-  · simp [hj]
-
-/-- **the grid part of a full redraw** when the source cursor is at the pending-wrap position of a line whose
-last column is occupied: the last character of the line is typed again to get the receiver's cursor there -/
-theorem grid_formatted_reproduces_pw (hW : WOk W) {q : Parser} (hq : RecvOk W q) (Sg : Grid)
-    (hoff : Sg.scrollbackOffset = 0) (hsz : Sg.size = (rsOf q.ws).g.size)
-    (hS : SrcRows W Sg.size.cols Sg.rows) (hn : Sg.rows.length = Sg.size.rows)
-    (hrow : Sg.pos.row < Sg.size.rows) (hcol : Sg.pos.col = Sg.size.cols)
-    (hocc : lastOcc (Sg.rows[Sg.pos.row]'(by omega)).cells) :
-    ∃ bytes pa, Sg.writeContentsFormatted = .ok (bytes, pa) ∧
-      ∃ Rf, Emitted W cb q bytes Rf ∧ Rf.pen = pa ∧
-        RowsInv Sg.rows Sg.size.cols Sg.rows.length false Sg.pos Rf ∧
-        Rf.g.scrollbackOffset = (rsOf q.ws).g.scrollbackOffset := by
-  obtain ⟨R1, hem1, hpen1, hinv1, hoff1, _⟩ := prefix_drawn (cb := cb) hq Sg.rows (by rw [hn, hsz])
-  rw [← hsz] at hinv1
-  obtain ⟨out', pp', pa', R', eloop, hem', hpen', hinv', hoff', hwf'⟩ := rows_loop hW q hq.ready hS Sg.rows 0 false ⟨0, 0⟩
-    (Term.clearAttrs ++ Term.clearScreen) R1 rfl (Nat.zero_le _) (fun h => absurd h (Nat.lt_irrefl 0)) (fun _ => rfl)
-    hinv1 hem1
-  rw [hpen1] at eloop
-  have hpawf : Attrs.wf pa' := hwf' (by rw [hpen1]; exact wf_default)
-  have hvis := C19.visibleRows_offset0 Sg hoff
-  by_cases hpp : pp' = Sg.pos
-  · -- the loop already left the cursor there
-    have hcur : Sg.writeCursorPositionFormatted (some pp') (some pa') = .ok [] := by
-      simp [Grid.writeCursorPositionFormatted, hpp, Grid.moveOpt, C19.moveFromTo_self]
-    refine ⟨out' ++ [], pa', ?_, R', by simpa using hem', hpen', ?_, hoff'.trans hoff1⟩
-    · simp only [Grid.writeContentsFormatted, hvis, ok_bind, eloop, hcur, pure_eq_ok]
-    · rw [← hpp]; exact hinv'
-  · -- re-type the last character of the cursor line
-    have hcv := hinv'.canvas
-    have hcols1 := hcv.cols_pos
-    have hu := hcv.cols_u16
-    have hru := hcv.rows_u16
-    have hsc1 : 1 ≤ Sg.size.cols := by rw [← hinv'.hcols]; exact hcols1
-    have hrl : Sg.pos.row < Sg.rows.length := by omega
-    have hsok := hS.ok _ (List.getElem_mem hrl)
-    have hswd := hS.width _ (List.getElem_mem hrl)
-    obtain ⟨hlen1, hoc⟩ := hocc
-    obtain ⟨Rk, hRk, hdone, _⟩ := hinv'.row Sg.pos.row hrl
-    obtain ⟨hvk, h22k, hwk⟩ := hdone hrl
-    have hRkl : Rk.cells.length = Sg.size.cols := by
-      have := congrArg List.length hvk; simp only [List.length_map] at this; rw [this, hswd]
-    have hc1 : Sg.size.cols - 1 < Sg.rows[Sg.pos.row].cells.length := by rw [hswd]; omega
-    have hlastidx : Sg.rows[Sg.pos.row].cells.length - 1 = Sg.size.cols - 1 := by rw [hswd]
-    simp only [hlastidx] at hoc
-    have hcond : (some pp' != some Sg.pos && decide (Sg.pos.col ≥ Sg.size.cols)) = true := by
-      have : ¬ pp' = Sg.pos := hpp
-      simp [this, hcol]
-    have hdraw : ∀ site k (hk : k < Sg.rows[Sg.pos.row].cells.length),
-        Sg.drawingCellM site ⟨Sg.pos.row, k⟩ = .ok Sg.rows[Sg.pos.row].cells[k] := by
-      intro site k hk
-      simp [Grid.drawingCellM, Grid.drawingCell, Grid.drawingRow, Row.get, List.getElem?_eq_getElem hrl,
-        List.getElem?_eq_getElem hk]
-    have hrr : Sg.pos.row < R'.g.size.rows := by rw [hinv'.nrows]; exact hrl
-    by_cases hlc : Sg.rows[Sg.pos.row].cells[Sg.size.cols - 1].cont = true
-    · -- a wide character in the last two columns
-      obtain ⟨j0, pv, hj0, hpv, hpvw⟩ := paired_cont_prev (List.getElem?_eq_getElem hc1) hsok.paired hlc
-      have hc2 : Sg.size.cols - 2 < Sg.rows[Sg.pos.row].cells.length := by omega
-      have hcols2 : 2 ≤ Sg.size.cols := by omega
-      have hj0' : j0 = Sg.size.cols - 2 := by omega
-      subst hj0'
-      have hpv' : Sg.rows[Sg.pos.row].cells[Sg.size.cols - 2] = pv := by
-        rw [List.getElem?_eq_getElem hc2] at hpv; exact Option.some.inj hpv
-      have hwide : Sg.rows[Sg.pos.row].cells[Sg.size.cols - 2].wide = true := by rw [hpv']; exact hpvw
-      have hh : Sg.rows[Sg.pos.row].cells[Sg.size.cols - 2].hasContents = true :=
-        wide_has_contents (hsok.cells_ok _ (List.getElem_mem hc2)) hwide
-      have hncont : Sg.rows[Sg.pos.row].cells[Sg.size.cols - 2].cont = false :=
-        wide_not_cont (hsok.cells_ok _ (List.getElem_mem hc2)) hwide
-      obtain ⟨f, zs, ht⟩ := textCell_of hW (hsok.cells_ok _ (List.getElem_mem hc2)) (hsok.emit_ok _ hc2) hh
-      have hfine : CellFine Sg.rows[Sg.pos.row].cells[Sg.size.cols - 2] := cellFine_of_ok (hsok.cells_ok _ (List.getElem_mem hc2))
-      have hw2 : 2 ≤ (W f).getD 1 := by
-        have := ht.wide; rw [hwide] at this
-        have h' : 1 < (W f).getD 1 := by simpa using this.symm
-        omega
-      have hcur : Sg.writeCursorPositionFormatted (some pp') (some pa') =
-          .ok (Term.moveFromTo pp' ⟨Sg.pos.row, Sg.size.cols - 2⟩ ++
-            Sg.rows[Sg.pos.row].cells[Sg.size.cols - 2].attrs.writeEscapeCodeDiff pa' ++
-            Sg.rows[Sg.pos.row].cells[Sg.size.cols - 2].contents.take Sg.rows[Sg.pos.row].cells[Sg.size.cols - 2].len ++
-            pa'.writeEscapeCodeDiff Sg.rows[Sg.pos.row].cells[Sg.size.cols - 2].attrs) := by
-        simp only [Grid.writeCursorPositionFormatted, hcond, ↓reduceIte, Option.getD_some, Grid.endOfRowPos,
-          subM_ok hsc1, ok_bind, hdraw 412 _ hc1, Cell.isWideContinuation, hlc, subM_ok hcols2, pure_bind',
-          hdraw 415 _ hc2, hh, contentsBytes_ok hfine, Grid.moveOpt, pure_eq_ok]
-      obtain ⟨hk2, hvc2⟩ := views_get hvk (Sg.size.cols - 2) hc2
-      obtain ⟨hk1, hvc1⟩ := views_get hvk (Sg.size.cols - 1) hc1
-      obtain ⟨hfw, hfc⟩ := flags_of_view hvc2
-      have hgo := goto_eq hcv pp' ⟨Sg.pos.row, Sg.size.cols - 2⟩ hinv'.pos hrr (by simp only; rw [hinv'.hcols]; omega)
-      have hemA := emitted_step W cb hq.ready hem' (step_moveFromTo W cb pp' ⟨Sg.pos.row, Sg.size.cols - 2⟩
-        (by simp only; rw [hinv'.nrows] at hru; omega) (by simp only; rw [hinv'.hcols] at hu; omega)) hgo
-      have hemB := emitted_step W cb hq.ready hemA
-        (step_pen W cb Sg.rows[Sg.pos.row].cells[Sg.size.cols - 2].attrs pa' (hsok.wf _ hc2))
-        (r' := { R' with g := withPos R'.g ⟨Sg.pos.row, Sg.size.cols - 2⟩,
-                         pen := Sg.rows[Sg.pos.row].cells[Sg.size.cols - 2].attrs }) (by simp [hpen'])
-      have hstep := step_text W cb _ ht.valid (by rw [ht.chars]; exact ht.plain) ht.noesc
-      rw [ht.chars] at hstep
-      have hidx : Sg.size.cols - 2 + 1 = Sg.size.cols - 1 := by omega
-      obtain ⟨cellF, cc, etype, vF, kF, vcc, kcc⟩ := type_cell_wide_over W (g := withPos R'.g ⟨Sg.pos.row, Sg.size.cols - 2⟩)
-        (by simp only [withPos]; exact hu) Sg.rows[Sg.pos.row].cells[Sg.size.cols - 2].attrs f _ zs Rk
-        Rk.cells[Sg.size.cols - 2] Rk.cells[Sg.size.cols - 1] rfl hw2 ht.first ht.zero
-        (by simp only [withPos]; rw [hinv'.hcols]; have := ht.fits; rw [hswd] at this; exact this)
-        (by simpa [withPos] using hRk) (by simp [withPos, List.getElem?_eq_getElem hk2]) (by rw [hfw, hwide])
-        (by rw [hfc, hncont]) (h22k _ (List.getElem_mem hk2))
-        (by simp only [withPos, hidx]; exact List.getElem?_eq_getElem hk1) (h22k _ (List.getElem_mem hk1)) hW.space ht.pre
-      simp only [withPos, hidx] at etype
-      have hemC := emitted_step W cb hq.ready hemB hstep
-        (r' := { R' with g := typed (withPos R'.g ⟨Sg.pos.row, Sg.size.cols - 2⟩) Rk
-                              ((Rk.cells.set (Sg.size.cols - 2) cellF).set (Sg.size.cols - 1) cc) (Sg.size.cols - 2 + 2),
-                         pen := Sg.rows[Sg.pos.row].cells[Sg.size.cols - 2].attrs }) (by
-          simp only [withPos, etype, ok_bind, pure_eq_ok])
-      have hemD := emitted_step W cb hq.ready hemC
-        (step_pen W cb pa' Sg.rows[Sg.pos.row].cells[Sg.size.cols - 2].attrs hpawf)
-        (r' := { R' with g := typed (withPos R'.g ⟨Sg.pos.row, Sg.size.cols - 2⟩) Rk
-                              ((Rk.cells.set (Sg.size.cols - 2) cellF).set (Sg.size.cols - 1) cc) (Sg.size.cols - 2 + 2),
-                         pen := pa' }) (by simp)
-      have hposeq : (⟨Sg.pos.row, Sg.size.cols - 2 + 2⟩ : Pos) = Sg.pos := by
-        rw [show Sg.size.cols - 2 + 2 = Sg.size.cols by omega, ← hcol]
-      have hv1 : ((Rk.cells.set (Sg.size.cols - 2) cellF).set (Sg.size.cols - 1) cc).map view = Rk.cells.map view := by
-        have h1 := map_view_set_same hk2 (c' := cellF) (by rw [vF, ← ht.view, hvc2])
-        have hk1' : Sg.size.cols - 1 < (Rk.cells.set (Sg.size.cols - 2) cellF).length := by simpa using hk1
-        have h2 := map_view_set_same hk1' (c' := cc) (by
-          rw [vcc, List.getElem_set_ne (by omega), hvc1, hsok.cont_view _ hc1 hlc]; rfl)
-        rw [h2, h1]
-      have hrepl := rowsInv_replace hinv' Sg.pos.row Rk
-        { Rk with cells := (Rk.cells.set (Sg.size.cols - 2) cellF).set (Sg.size.cols - 1) cc } hRk hv1 rfl (by
-          intro c hc
-          rcases List.mem_or_eq_of_mem_set hc with hc | rfl
-          · rcases List.mem_or_eq_of_mem_set hc with hc | rfl
-            · exact h22k c hc
-            · exact kF
-          · exact kcc) Sg.pos
-      refine ⟨out' ++ (Term.moveFromTo pp' ⟨Sg.pos.row, Sg.size.cols - 2⟩ ++
-            Sg.rows[Sg.pos.row].cells[Sg.size.cols - 2].attrs.writeEscapeCodeDiff pa' ++
-            Sg.rows[Sg.pos.row].cells[Sg.size.cols - 2].contents.take Sg.rows[Sg.pos.row].cells[Sg.size.cols - 2].len ++
-            pa'.writeEscapeCodeDiff Sg.rows[Sg.pos.row].cells[Sg.size.cols - 2].attrs), pa', ?_, _, ?_, ?_, hrepl, hoff'.trans hoff1⟩
-      · simp only [Grid.writeContentsFormatted, hvis, ok_bind, eloop, hcur, pure_eq_ok]
-      · have : replaced R' Sg.pos.row { Rk with cells := (Rk.cells.set (Sg.size.cols - 2) cellF).set (Sg.size.cols - 1) cc } Sg.pos =
-            { R' with g := typed (withPos R'.g ⟨Sg.pos.row, Sg.size.cols - 2⟩) Rk
-                              ((Rk.cells.set (Sg.size.cols - 2) cellF).set (Sg.size.cols - 1) cc) (Sg.size.cols - 2 + 2), pen := pa' } := by
-          simp only [replaced, typed, withPos, hposeq, hpen']
-        rw [this]
-        simpa [List.append_assoc] using hemD
-      · exact hpen'
-    · -- a narrow character in the last column
-      have hlc' : Sg.rows[Sg.pos.row].cells[Sg.size.cols - 1].cont = false := by simpa using hlc
-      have hh : Sg.rows[Sg.pos.row].cells[Sg.size.cols - 1].hasContents = true := by
-        rcases hoc with h | h
-        · exact h
-        · rw [hlc'] at h; simp at h
-      obtain ⟨f, zs, ht⟩ := textCell_of hW (hsok.cells_ok _ (List.getElem_mem hc1)) (hsok.emit_ok _ hc1) hh
-      have hfine : CellFine Sg.rows[Sg.pos.row].cells[Sg.size.cols - 1] := cellFine_of_ok (hsok.cells_ok _ (List.getElem_mem hc1))
-      -- the last column cannot hold a wide character
-      have hnw : Sg.rows[Sg.pos.row].cells[Sg.size.cols - 1].wide = false := by
-        by_cases hw : Sg.rows[Sg.pos.row].cells[Sg.size.cols - 1].wide = true
-        · obtain ⟨hj', _⟩ := hsok.wide_next _ hc1 hw
-          rw [hswd] at hj'; omega
-        · simpa using hw
-      have hw1 : (W f).getD 1 = 1 := by
-        have := ht.wide; rw [hnw] at this
-        have h' : ¬ 1 < (W f).getD 1 := by simpa using this.symm
-        have := ht.width; omega
-      -- the emitter's output
-      have hcur : Sg.writeCursorPositionFormatted (some pp') (some pa') =
-          .ok (Term.moveFromTo pp' ⟨Sg.pos.row, Sg.size.cols - 1⟩ ++
-            Sg.rows[Sg.pos.row].cells[Sg.size.cols - 1].attrs.writeEscapeCodeDiff pa' ++
-            Sg.rows[Sg.pos.row].cells[Sg.size.cols - 1].contents.take Sg.rows[Sg.pos.row].cells[Sg.size.cols - 1].len ++
-            pa'.writeEscapeCodeDiff Sg.rows[Sg.pos.row].cells[Sg.size.cols - 1].attrs) := by
-        simp only [Grid.writeCursorPositionFormatted, hcond, ↓reduceIte, Option.getD_some, Grid.endOfRowPos,
-          subM_ok hsc1, ok_bind, hdraw 412 _ hc1, Cell.isWideContinuation, hlc', Bool.false_eq_true, pure_bind',
-          hdraw 415 _ hc1, hh, contentsBytes_ok hfine, Grid.moveOpt, pure_eq_ok]
-      -- the receiver
-      obtain ⟨hk1, hvc⟩ := views_get hvk (Sg.size.cols - 1) hc1
-      obtain ⟨hfw, hfc⟩ := flags_of_view hvc
-      have hgo := goto_eq hcv pp' ⟨Sg.pos.row, Sg.size.cols - 1⟩ hinv'.pos hrr (by simp only; rw [hinv'.hcols]; omega)
-      have hemA := emitted_step W cb hq.ready hem' (step_moveFromTo W cb pp' ⟨Sg.pos.row, Sg.size.cols - 1⟩
-        (by simp only; rw [hinv'.nrows] at hru; omega) (by simp only; rw [hinv'.hcols] at hu; omega)) hgo
-      have hemB := emitted_step W cb hq.ready hemA
-        (step_pen W cb Sg.rows[Sg.pos.row].cells[Sg.size.cols - 1].attrs pa' (hsok.wf _ hc1))
-        (r' := { R' with g := withPos R'.g ⟨Sg.pos.row, Sg.size.cols - 1⟩,
-                         pen := Sg.rows[Sg.pos.row].cells[Sg.size.cols - 1].attrs }) (by simp [hpen'])
-      have hstep := step_text W cb _ ht.valid (by rw [ht.chars]; exact ht.plain) ht.noesc
-      rw [ht.chars] at hstep
-      obtain ⟨cellF, etype, vF, kF⟩ := type_cell_narrow W (g := withPos R'.g ⟨Sg.pos.row, Sg.size.cols - 1⟩)
-        (by simp only [withPos]; exact hu) Sg.rows[Sg.pos.row].cells[Sg.size.cols - 1].attrs f zs Rk Rk.cells[Sg.size.cols - 1]
-        hw1 ht.first ht.zero (by simp only [withPos]; rw [hinv'.hcols]; omega) (by simpa [withPos] using hRk)
-        (by simp [withPos, List.getElem?_eq_getElem hk1]) (by rw [hfw, hnw]) (by rw [hfc, hlc'])
-        (h22k _ (List.getElem_mem hk1)) ht.pre
-      have hemC := emitted_step W cb hq.ready hemB hstep
-        (r' := { R' with g := typed (withPos R'.g ⟨Sg.pos.row, Sg.size.cols - 1⟩) Rk
-                              (Rk.cells.set (Sg.size.cols - 1) cellF) (Sg.size.cols - 1 + 1),
-                         pen := Sg.rows[Sg.pos.row].cells[Sg.size.cols - 1].attrs }) (by
-          simp only [etype, ok_bind, pure_eq_ok]
-          rfl)
-      have hemD := emitted_step W cb hq.ready hemC
-        (step_pen W cb pa' Sg.rows[Sg.pos.row].cells[Sg.size.cols - 1].attrs hpawf)
-        (r' := { R' with g := typed (withPos R'.g ⟨Sg.pos.row, Sg.size.cols - 1⟩) Rk
-                              (Rk.cells.set (Sg.size.cols - 1) cellF) (Sg.size.cols - 1 + 1),
-                         pen := pa' }) (by simp)
-      have hposeq : (⟨Sg.pos.row, Sg.size.cols - 1 + 1⟩ : Pos) = Sg.pos := by
-        rw [show Sg.size.cols - 1 + 1 = Sg.size.cols by omega, ← hcol]
-      have hrepl := rowsInv_replace hinv' Sg.pos.row Rk { Rk with cells := Rk.cells.set (Sg.size.cols - 1) cellF } hRk
-        (map_view_set_same hk1 (by rw [vF, ← ht.view, hvc])) rfl (by
-          intro c hc
-          rcases List.mem_or_eq_of_mem_set hc with hc | rfl
-          · exact h22k c hc
-          · exact kF) Sg.pos
-      refine ⟨out' ++ (Term.moveFromTo pp' ⟨Sg.pos.row, Sg.size.cols - 1⟩ ++
-            Sg.rows[Sg.pos.row].cells[Sg.size.cols - 1].attrs.writeEscapeCodeDiff pa' ++
-            Sg.rows[Sg.pos.row].cells[Sg.size.cols - 1].contents.take Sg.rows[Sg.pos.row].cells[Sg.size.cols - 1].len ++
-            pa'.writeEscapeCodeDiff Sg.rows[Sg.pos.row].cells[Sg.size.cols - 1].attrs), pa', ?_, _, ?_, ?_, hrepl, hoff'.trans hoff1⟩
-      · simp only [Grid.writeContentsFormatted, hvis, ok_bind, eloop, hcur, pure_eq_ok]
-      · have : replaced R' Sg.pos.row { Rk with cells := Rk.cells.set (Sg.size.cols - 1) cellF } Sg.pos =
-            { R' with g := typed (withPos R'.g ⟨Sg.pos.row, Sg.size.cols - 1⟩) Rk
-                              (Rk.cells.set (Sg.size.cols - 1) cellF) (Sg.size.cols - 1 + 1), pen := pa' } := by
-          simp only [replaced, typed, withPos, hposeq, hpen']
-        rw [this]
-        simpa [List.append_assoc] using hemD
-      · exact hpen'
 
 /-- the receiver shows the source: what `obs` compares, component by component (input modes apart) -/
 structure Shows (q : Screen) (S : Screen) : Prop where
@@ -545,8 +101,7 @@ structure SrcScreen (W : Nat → Option Nat) (S : Screen) : Prop where
   rows : SrcRows W S.cur.size.cols S.cur.rows
   alloc : S.cur.rows.length = S.cur.size.rows
   cur_row : S.cur.pos.row < S.cur.size.rows
-  cursor_ok : S.cur.pos.col < S.cur.size.cols ∨
-    (S.cur.pos.col = S.cur.size.cols ∧ lastOcc (S.cur.rows[S.cur.pos.row]'(by rw [alloc]; exact cur_row)).cells)
+  cur_col : S.cur.pos.col ≤ S.cur.size.cols
   pen_wf : Attrs.wf S.attrs
 
 theorem rsOf_hide (ws : WS) (b : Bool) :
@@ -571,11 +126,8 @@ theorem contents_formatted_reproduces (hW : WOk W) {q : Parser} (hq : RecvOk W q
       ∃ Rf, Emitted W cb q1 bytes Rf ∧ Rf.pen = pa ∧
         RowsInv S.cur.rows S.cur.size.cols S.cur.rows.length false S.cur.pos Rf ∧
         Rf.g.scrollbackOffset = (rsOf q1.ws).g.scrollbackOffset := by
-    rcases hS.cursor_ok with hin | ⟨hpw, hocc⟩
-    · exact grid_formatted_reproduces (cb := cb) hW hq1 S.cur hS.off (by rw [hrs1]; exact hsz) hS.rows hS.alloc
-        hS.cur_row hin
-    · exact grid_formatted_reproduces_pw (cb := cb) hW hq1 S.cur hS.off (by rw [hrs1]; exact hsz) hS.rows hS.alloc
-        hS.cur_row hpw hocc
+    exact grid_formatted_reproduces_any (cb := cb) hW hq1 S.cur hS.off (by rw [hrs1]; exact hsz) hS.rows hS.alloc
+      hS.cur_row hS.cur_col
   -- the pen
   have hem2 := emitted_step W cb r1 hemf (step_pen W cb S.attrs pa hS.pen_wf)
     (r' := { Rf with pen := S.attrs }) (by simp [hpenf])
@@ -726,11 +278,8 @@ theorem srcRows_of {g : Grid} {un : Bool} (hg : GridInv W g un) (hpl : gridPlusO
   rw [hr] at this
   simpa using this
 
-/-- **every screen that satisfies the Boolean invariants, is not scrolled back and whose cursor is inside
-its line is a valid source** -/
-theorem srcScreen_of_inv {S : Screen} (hinv : emitInvB W S = true) (hoff : S.cur.scrollbackOffset = 0)
-    (hcur : S.cur.pos.col < S.cur.size.cols ∨
-      (S.cur.pos.col = S.cur.size.cols ∧ ∀ h : S.cur.pos.row < S.cur.rows.length, lastOcc (S.cur.rows[S.cur.pos.row]).cells)) :
+/-- **every screen that satisfies the Boolean invariants and is not scrolled back is a valid source** -/
+theorem srcScreen_of_inv {S : Screen} (hinv : emitInvB W S = true) (hoff : S.cur.scrollbackOffset = 0) :
     SrcScreen W S := by
   simp only [emitInvB, invPlusB, Bool.and_eq_true] at hinv
   obtain ⟨⟨⟨⟨⟨hI, hp1⟩, hp2⟩, he1⟩, he2⟩, ha⟩ := hinv
@@ -741,22 +290,17 @@ theorem srcScreen_of_inv {S : Screen} (hinv : emitInvB W S = true) (hoff : S.cur
     cases hs : S.altScreen
     · simpa using srcRows_of hsi.grid hp1 he1
     · simpa using srcRows_of hsi.alt hp2 he2
-  refine ⟨hoff, hrows, hal, hcg.pos_row, ?_, attrs_wf_of_ok ha⟩
-  rcases hcur with h | ⟨h1, h2⟩
-  · exact Or.inl h
-  · exact Or.inr ⟨h1, h2 (by rw [hal]; exact hcg.pos_row)⟩
+  exact ⟨hoff, hrows, hal, hcg.pos_row, hcg.pos_col, attrs_wf_of_ok ha⟩
 
-/-- **C01** (cursor inside its line, or pending wrap after a line whose last column is occupied): for every screen `S` satisfying `Inv`, `Inv⁺`, `emitInv`, not scrolled back,
+/-- **C01**: for every screen `S` satisfying `Inv`, `Inv⁺`, `emitInv`, not scrolled back,
 feeding the bytes of `S.state_formatted()` to a NEW parser of the same size (any scrollback capacity) yields a
 screen whose observable state equals `S`'s — cells, wide/continuation flags, colours and attributes, wrap
 flags, cursor, cursor visibility, pen, input modes — and reports no event -/
 theorem full_redraw_fresh (hW : WOk W) (S : Screen) (hinv : emitInvB W S = true) (hoff : S.cur.scrollbackOffset = 0)
-    (hcur : S.cur.pos.col < S.cur.size.cols ∨
-      (S.cur.pos.col = S.cur.size.cols ∧ ∀ h : S.cur.pos.row < S.cur.rows.length, lastOcc (S.cur.rows[S.cur.pos.row]).cells))
     (sb : Nat) :
     ∃ q bytes q', Parser.new S.cur.size.rows S.cur.size.cols sb = .ok q ∧ S.stateFormatted = .ok bytes ∧
       q.process W cb bytes = .ok q' ∧ obs q'.screen = obs S ∧ q'.ws.events = [] := by
-  have hS := srcScreen_of_inv hinv hoff hcur
+  have hS := srcScreen_of_inv hinv hoff
   have hI : Inv W S := by
     simp only [emitInvB, invPlusB, Bool.and_eq_true] at hinv
     exact hinv.1.1.1.1.1
@@ -791,6 +335,20 @@ theorem full_redraw_fresh_nonvacuous :
             (s.cur.rows.any (·.wrapped)))) = true := by
   decide +kernel
 
+/-- ... and by screens whose cursor is in the pending-wrap column of a line whose last column is empty:
+"abc" `ESC[1K` on the first line (branch (c): nothing above), and "abc" CR LF "def" `ESC[1K` (branch (b): the
+line above ends occupied).  Kernel-evaluated; tests -/
+theorem full_redraw_fresh_nonvacuous_pw :
+    isOkTrue (do
+      let p ← C02.run 2 3 0 [[97, 98, 99, 0x1b, 0x5b, 0x31, 0x4b]]
+      let p' ← C02.run 2 3 0 [[97, 98, 99, 13, 10, 100, 101, 102, 0x1b, 0x5b, 0x31, 0x4b]]
+      let s := p.screen
+      let s' := p'.screen
+      pure (emitInvB W0 s && s.cur.scrollbackOffset == 0 && s.cur.pos == ⟨0, 3⟩ &&
+            !(s.cur.rows.any (fun r => r.cells.any (·.hasContents))) &&
+            emitInvB W0 s' && s'.cur.scrollbackOffset == 0 && s'.cur.pos == ⟨1, 3⟩)) = true := by
+  decide +kernel
+
 /-- a receiver that shows `S` looks the same to every emitter (C19) -/
 theorem screenSame_of_shows {q S : Screen} (h : Shows q S) (hm : C10.inputModes q = C10.inputModes S)
     (hoff : S.cur.scrollbackOffset = 0) : ScreenSame q S := by
@@ -821,13 +379,11 @@ theorem reemit_identical {q S : Screen} (h : Shows q S) (hm : C10.inputModes q =
 
 /-- **C01, complete statement on a new parser**: `obs` equality, no events, and byte-identical re-emission -/
 theorem full_redraw_fresh_reemit (hW : WOk W) (S : Screen) (hinv : emitInvB W S = true) (hoff : S.cur.scrollbackOffset = 0)
-    (hcur : S.cur.pos.col < S.cur.size.cols ∨
-      (S.cur.pos.col = S.cur.size.cols ∧ ∀ h : S.cur.pos.row < S.cur.rows.length, lastOcc (S.cur.rows[S.cur.pos.row]).cells))
     (sb : Nat) :
     ∃ q bytes q', Parser.new S.cur.size.rows S.cur.size.cols sb = .ok q ∧ S.stateFormatted = .ok bytes ∧
       q.process W cb bytes = .ok q' ∧ obs q'.screen = obs S ∧ q'.ws.events = [] ∧
       q'.screen.stateFormatted = .ok bytes ∧ q'.screen.contentsFormatted = S.contentsFormatted := by
-  have hS := srcScreen_of_inv hinv hoff hcur
+  have hS := srcScreen_of_inv hinv hoff
   have hI : Inv W S := by
     simp only [emitInvB, invPlusB, Bool.and_eq_true] at hinv
     exact hinv.1.1.1.1.1
